@@ -241,6 +241,7 @@ func (s *vfSticky) event(op vfStickyOp, d *vfDialog, rnd *rand.Rand, expires int
 		b := s.backendAddr(op.B)
 		bip, bport := s.ipPort(b)
 		d.holder = b
+		d.fromBackend = true
 		vias := []string{fmt.Sprintf("SIP/2.0/UDP %s:5060;branch=%s", s.g.ip("10.0.0.1"), s.branch()), fmt.Sprintf("SIP/2.0/UDP %s:%d;branch=%s", bip, bport, s.branch())}
 		var extra []vfHdr
 		if expires > 0 {
@@ -426,6 +427,22 @@ func TestVfSticky(t *testing.T) {
 					s.event(vfStickyOp{Op: "answer"}, ds[j], rnd, exp)
 				}
 				es[j] = est{time.Since(s.start), life}
+			}
+			// half a dialog timeout later the backend answers some of the INVITE dialogs again (the 2xx after a tagged 18x, the
+			// answer to a re-INVITE): the pin's lifetime is promised anew from that response, with its own Expires
+			if i%2 == 1 {
+				time.Sleep(time.Duration(Tms/2) * time.Millisecond)
+				for j, d := range ds {
+					if d.fromBackend || d.holder == "" || rnd.Intn(2) == 0 {
+						continue
+					}
+					exp, life := 0, time.Duration(Tms)*time.Millisecond
+					if rnd.Intn(3) == 0 {
+						exp, life = 1, time.Second
+					}
+					s.event(vfStickyOp{Op: "answer"}, d, rnd, exp)
+					es[j] = est{time.Since(s.start), life}
+				}
 			}
 			for round := 0; round < 3; round++ {
 				for j, d := range ds {
